@@ -231,12 +231,60 @@ Proof.
 Qed.
 
 (* THE round-trip theorem *)
-Theorem parse_print c : wf_chain c -> parse_tokens (print_chain c) = Some (erase_chain c).
+Theorem parse_core_print c : wf_chain c -> parse_core (print_chain c) = Some (erase_chain c).
 Proof.
-  intros Hw. unfold parse_tokens.
+  intros Hw. unfold parse_core.
   pose proof (rec_ok_fuel (S (length (print_chain c))) c [] Hw (depth_le_len c Hw) I) as [H _].
   rewrite app_nil_r in H. rewrite H. reflexivity.
 Qed.
+
+(* printed trees are already normalised *)
+Lemma norm_path p : map norm (print_path p) = print_path p.
+Proof. induction p as [|n [|n2 r] IH]; [reflexivity|reflexivity|]. change (print_path (n :: n2 :: r)) with ((K_ATTRNAME, n) :: tDOT :: print_path (n2 :: r)). cbn [map]. rewrite IH. reflexivity. Qed.
+
+Lemma norm_sublist k l :
+  (k = K_INT \/ k = K_DOUBLE \/ k = K_STRING) -> map norm (print_sublist k l) = print_sublist k l.
+Proof.
+  intros Hk. induction l as [|x [|y r] IH]; [reflexivity| |].
+  - destruct Hk as [-> | [-> | ->]]; reflexivity.
+  - change (print_sublist k (x :: y :: r)) with ((k, x) :: tCOMMA :: print_sublist k (y :: r)). cbn [map]. rewrite IH.
+    destruct Hk as [-> | [-> | ->]]; reflexivity.
+Qed.
+
+Lemma norm_leaf q : map norm (print_leaf q) = print_leaf q.
+Proof.
+  destruct q as [| |p|p op v]; try reflexivity; cbn [print_leaf]; rewrite !map_app, norm_path.
+  - reflexivity.
+  - f_equal. cbn [map app]. assert (Ho : norm (op_kind op, []) = (op_kind op, [])) by (destruct op; reflexivity). rewrite Ho.
+    assert (Ht : norm tSP = tSP) by reflexivity. rewrite Ht. do 3 f_equal.
+    destruct v; cbn [print_value map]; try reflexivity.
+    + destruct neg, e; reflexivity.
+    + rewrite norm_sublist by auto. reflexivity.
+    + rewrite norm_sublist by auto. reflexivity.
+    + rewrite norm_sublist by auto. reflexivity.
+Qed.
+
+Lemma norm_print : forall c, map norm (print_chain c) = print_chain c
+with norm_print_prim : forall p, map norm (print_prim p) = print_prim p.
+Proof.
+  - intros [f l]. rewrite print_chain_eq, map_app, norm_print_prim. f_equal.
+    induction l as [|[o p] l IH]; [reflexivity|]. cbn [print_rest map]. rewrite map_app, norm_print_prim, IH.
+    destruct o; reflexivity.
+  - intros [q|neg sp0 sp1 sp2 inner].
+    + apply norm_leaf.
+    + cbn [print_prim]. rewrite !map_app, norm_print. destruct neg, sp0, sp1, sp2; reflexivity.
+Qed.
+
+Theorem parse_print c : wf_chain c -> parse_tokens (print_chain c) = Some (erase_chain c).
+Proof. intros Hw. unfold parse_tokens. rewrite norm_print. apply parse_core_print. exact Hw. Qed.
+
+(* C15 (spelling, token level): the parser only sees the normalised tokens, so the text
+   of operators, not/NOT, blanks with newlines, commas with blanks cannot matter *)
+Lemma norm_idem t : norm (norm t) = norm t.
+Proof. destruct t as [[] tx]; cbn; try reflexivity. unfold is_or. destruct (list_eqb N.eqb tx t_or); reflexivity. Qed.
+
+Theorem spelling_irrelevant ts1 ts2 : map norm ts1 = map norm ts2 -> parse_tokens ts1 = parse_tokens ts2.
+Proof. unfold parse_tokens. intros ->. reflexivity. Qed.
 
 (* C15 (token level): the same AST under every choice of optional blanks and redundant parentheses *)
 Corollary layout_irrelevant c1 c2 :
